@@ -15,11 +15,21 @@ Definition mtype_eqb (a b : mtype_t) : bool :=
   match a, b with CON, CON | NON, NON | ACK, ACK | RST, RST => true | _, _ => false end.
 
 (* transports/udp6.py:104 UDP6EndpointAddress: peer = sockaddr, local = pktinfo
-   (0: none, 1: a unicast local address, 2: a multicast local address).
+   (0: none; 2 and >= 100: multicast groups — ff02::fd, ::ffff:224.0.1.187 (IPv4 group on the dual-stack socket), ff05::fd, ...;
+   every other number: a unicast local address — global, v4-mapped, scoped link-local).
    Equality and hashing ignore the local part (udp6.py:146-153), so every table below is keyed by [rpeer]. *)
 Record remote := { rpeer : Z; rlocal : Z }.
 Definition is_multicast (r : remote) : bool := 100 <=? rpeer r.           (* udp6.py:246; peers >= 100 are ff0x:: *)
-Definition is_multicast_locally (r : remote) : bool := rlocal r =? 2.     (* udp6.py:250 *)
+Definition is_multicast_locally (r : remote) : bool := (rlocal r =? 2) || (100 <=? rlocal r).   (* udp6.py:250; local kinds 2 and >= 100 are groups *)
+(* udp6.py:246-252 (_plainaddress/_plainaddress_local strip the ::ffff: prefix, then ipaddress decides), on the 16 packed bytes of
+   sockaddr / pktinfo: a multicast group is an address in ff00::/8, or the IPv4-mapped form ::ffff:a.b.c.d of one in 224.0.0.0/4 —
+   nothing else.  The local / peer kinds above abstract exactly this bit (kernel stream `addr`). *)
+Definition packed_is_multicast (b : list Z) : bool :=
+  (nth 0 b 0 =? 255) ||
+  (beqb (firstn 12 b) [0; 0; 0; 0; 0; 0; 0; 0; 0; 0; 255; 255] && (224 <=? nth 12 b 0) && (nth 12 b 0 <=? 239)).
+(* (is_multicast, is_multicast_locally, as_response_address keeps the pktinfo) of an address with these packed peer / local parts *)
+Definition address_flags (peer local : list Z) : bool * bool * bool :=
+  (packed_is_multicast peer, packed_is_multicast local, negb (packed_is_multicast local)).
 (* udp6.py:254 as_response_address *)
 Definition as_response_address (r : remote) : remote :=
   if negb (is_multicast_locally r) then r else {| rpeer := rpeer r; rlocal := 0 |}.
